@@ -416,6 +416,10 @@ def run_oracle(ctx, inp):
             img = img[..., None]
     if inp.get("fscale"):
         res.stat("oracle_float_scale_%g" % inp["fscale"])
+    # the same pixel values in another memory layout (Fortran order, transposed / strided / flipped view)
+    from .c06 import memory_layout
+    img, lay = memory_layout(img, int(img.size) + len(inp["diameter"]) + int(cut))
+    res.stat("oracle_memory_" + lay)
     try:
         f = tp.locate(img, tuple(inp["diameter"]), minmass=cut, preprocess=pre)
     except Exception as e:       # locate has no documented reason to refuse such an image
@@ -512,6 +516,9 @@ def run_model(ctx, inp):
         res.borderline = True
         return res
     kw = dict(preprocess=pre, percentile=inp["pct"], max_iterations=inp["max_iter"])
+    from .c06 import memory_layout
+    raw, lay = memory_layout(raw, int(raw.size) + int(inp["pct"]) + int(inp["max_iter"]))
+    res.stat("memory_" + lay)
     try:
         f0 = tp.locate(raw, tuple(diam), minmass=0, **kw)
     except Exception as e:
